@@ -5,12 +5,36 @@
  * readable / writable / contiguous_readable after every operation, bytes copied
  * out or exposed, OFFSETS of returned pointers (never addresses).
  *
- *   init <c>          write <hex>       read <n>        fetch <n>
+ *   init <c> [fail]   write <hex>       read <n>        fetch <n>
  *   wfc <n>           wmn <hex>         wmove <hex>     rfc <n>
  *   rmove <k>         clear             st   (informational: the four fields)
- * <hex> is "-" for the empty string.  wmn stores the bytes through the pointer
- * returned by the DIRECTLY preceding wfc and calls writer_move_n(ptr, |hex|);
- * without such a pointer, or with |hex| > n, it is not performed ("skip"). */
+ *   rpk               writen <n>        wmoven <n>
+ * <hex> is "-" for the empty string.  Sizes are any C int.  A NEGATIVE byte count is
+ * outside the documented usage of read / fetch / reader_move (the library then
+ * copies (size_t)-1 bytes or moves a cursor out of the buffer: observation recorded
+ * in the plugin's ASSUMPTIONS): such a line is not performed ("skip").  writer_fc and
+ * reader_fc are well-behaved for negative counts and are called with them.
+ *
+ * init <c> fail : the malloc inside muggle_bytes_buffer_init returns NULL
+ *   (malloc is wrapped with -Wl,--wrap=malloc; armed for exactly that call).
+ *
+ * Outstanding regions (the zero-copy pairs need not be adjacent):
+ * - the pointer of the last SUCCESSFUL writer_fc stays outstanding across
+ *   read / fetch / rfc / rpk / rmove / st and across a writer_fc that returned
+ *   NULL; it is dropped by write / writen / wmove / wmoven / clear / init and
+ *   consumed by wmn.  wmn stores the bytes through it and calls
+ *   writer_move_n(ptr, |hex|); without such a pointer, or with |hex| > n, the
+ *   call is not performed ("skip": contract of the pair).
+ * - the pointer of the last SUCCESSFUL reader_fc stays outstanding across every
+ *   writer-side operation, fetch, st, rpk and a reader_fc that returned NULL; it
+ *   is dropped by read / rmove / clear / init.  rpk re-reads the n bytes through
+ *   it (they must still be the oldest unread bytes).
+ *
+ * Explicit-count calls (no payload is ever copied by a correct library):
+ * - writen <n>  : write(n, src) with a 1-byte src block; performed only for
+ *                 n >= c (can never be accepted), else "skip";
+ * - wmoven <n>  : writer_fc(n) then deprecated writer_move(n) without a store;
+ *                 performed only for n >= c, else "skip". */
 #include "vdrv.h"
 #include "muggle/c/memory/bytes_buffer.h"
 
@@ -18,8 +42,19 @@
 
 static muggle_bytes_buffer_t bb;
 static int have;
-static char *pend_ptr;   /* pointer of the directly preceding writer_fc */
+static int cap_req;      /* capacity given to init (the driver's own copy) */
+static char *pend_ptr;   /* outstanding writer region */
 static int pend_n;
+static char *rd_ptr;     /* outstanding reader region */
+static int rd_n;
+
+void *__real_malloc(size_t n);
+static int fail_next_malloc;
+void *__wrap_malloc(size_t n)
+{
+	if (fail_next_malloc) { fail_next_malloc = 0; return NULL; }
+	return __real_malloc(n);
+}
 
 static void cleanup(void)
 {
@@ -27,8 +62,10 @@ static void cleanup(void)
 	have = 0;
 	pend_ptr = NULL;
 	pend_n = 0;
+	rd_ptr = NULL;
+	rd_n = 0;
 }
-static void case_begin(void) { have = 0; pend_ptr = NULL; pend_n = 0; }
+static void case_begin(void) { have = 0; pend_ptr = NULL; pend_n = 0; rd_ptr = NULL; rd_n = 0; }
 static void case_end(void) { cleanup(); }
 
 static int hexval(int ch)
@@ -63,6 +100,16 @@ static void putoff(const void *p)
 	if (p == NULL) printf("null");
 	else printf("%ld", (long)((const char *)p - bb.buffer));
 }
+/* size of the exact-size block that can legitimately receive / expose n bytes:
+ * a correct library never delivers more than the capacity, so a larger request
+ * gets a block of capacity bytes and a wrong success is an ASan report */
+static int clip(int n)
+{
+	if (n < 0) return 0;
+	if (n > cap_req) return cap_req < 0 ? 0 : cap_req;
+	return n;
+}
+static int intarg(const char *arg) { return arg ? (int)strtol(arg, NULL, 10) : 0; }
 
 static void case_line(char *line)
 {
@@ -73,9 +120,13 @@ static void case_line(char *line)
 	while (arg && *arg == ' ') arg++;
 	if (strcmp(op, "init") == 0) {
 		cleanup();
-		int c = arg ? atoi(arg) : 0;
+		int c = intarg(arg);
+		int fail = arg && strstr(arg, "fail") != NULL;
+		cap_req = c;
+		fail_next_malloc = fail;
 		bool ok = muggle_bytes_buffer_init(&bb, c);
-		if (ok) { have = 1; memset(bb.buffer, FILL, (size_t)c); }
+		fail_next_malloc = 0;
+		if (ok) { have = 1; if (c > 0) memset(bb.buffer, FILL, (size_t)c); }
 		printf("init %d", ok ? 1 : 0);
 		if (ok) tail(); else printf("\n");
 		return;
@@ -85,25 +136,40 @@ static void case_line(char *line)
 		printf("st %d %d %d %d\n", bb.c, bb.w, bb.r, bb.t);
 		return;
 	}
-	char *pp = pend_ptr;
-	int pn = pend_n;
-	pend_ptr = NULL;
-	pend_n = 0;
 	if (strcmp(op, "write") == 0) {
 		int n;
 		unsigned char *src = unhex(arg ? arg : "-", &n);
+		pend_ptr = NULL;
 		bool ok = muggle_bytes_buffer_write(&bb, n, src);
 		free(src);
 		printf("write %d", ok ? 1 : 0);
+	} else if (strcmp(op, "writen") == 0) {
+		int n = intarg(arg);
+		pend_ptr = NULL;
+		if (n < cap_req) {
+			printf("writen skip");
+		} else {
+			unsigned char *src = (unsigned char *)malloc(1);
+			src[0] = 0x5a;
+			bool ok = muggle_bytes_buffer_write(&bb, n, src);
+			free(src);
+			printf("writen %d", ok ? 1 : 0);
+		}
 	} else if (strcmp(op, "read") == 0 || strcmp(op, "fetch") == 0) {
-		int n = arg ? atoi(arg) : 0;
-		unsigned char *dst = (unsigned char *)malloc((size_t)n);
-		bool ok = op[0] == 'r' ? muggle_bytes_buffer_read(&bb, n, dst) : muggle_bytes_buffer_fetch(&bb, n, dst);
-		printf("%s %d", op, ok ? 1 : 0);
-		if (ok) { printf(" "); puthex(dst, n); }
-		free(dst);
+		int n = intarg(arg);
+		if (op[0] == 'r') rd_ptr = NULL;
+		if (n < 0) {
+			printf("%s skip", op);
+		} else {
+			int m = clip(n);
+			unsigned char *dst = (unsigned char *)malloc((size_t)m);
+			bool ok = op[0] == 'r' ? muggle_bytes_buffer_read(&bb, n, dst) : muggle_bytes_buffer_fetch(&bb, n, dst);
+			printf("%s %d", op, ok ? 1 : 0);
+			if (ok) { printf(" "); puthex(dst, m); }
+			free(dst);
+		}
 	} else if (strcmp(op, "wfc") == 0) {
-		int n = arg ? atoi(arg) : 0;
+		int n = intarg(arg);
 		void *p = muggle_bytes_buffer_writer_fc(&bb, n);
 		printf("wfc ");
 		putoff(p);
@@ -111,7 +177,9 @@ static void case_line(char *line)
 	} else if (strcmp(op, "wmn") == 0) {
 		int k;
 		unsigned char *src = unhex(arg ? arg : "-", &k);
-		if (pp == NULL || k > pn) {
+		char *pp = pend_ptr;
+		pend_ptr = NULL;
+		if (pp == NULL || k > pend_n) {
 			printf("wmn skip");
 		} else {
 			memcpy(pp, src, (size_t)k);
@@ -122,30 +190,65 @@ static void case_line(char *line)
 	} else if (strcmp(op, "wmove") == 0) {
 		int n;
 		unsigned char *src = unhex(arg ? arg : "-", &n);
+		pend_ptr = NULL;
 		void *p = muggle_bytes_buffer_writer_fc(&bb, n);
 		if (p) memcpy(p, src, (size_t)n);
 		bool ok = muggle_bytes_buffer_writer_move(&bb, n);
 		free(src);
 		printf("wmove %d ", ok ? 1 : 0);
 		putoff(p);
+	} else if (strcmp(op, "wmoven") == 0) {
+		int n = intarg(arg);
+		pend_ptr = NULL;
+		if (n < cap_req) {
+			printf("wmoven skip");
+		} else {
+			void *p = muggle_bytes_buffer_writer_fc(&bb, n);
+			bool ok = muggle_bytes_buffer_writer_move(&bb, n);
+			printf("wmoven %d ", ok ? 1 : 0);
+			putoff(p);
+		}
 	} else if (strcmp(op, "rfc") == 0) {
-		int n = arg ? atoi(arg) : 0;
+		int n = intarg(arg);
 		void *p = muggle_bytes_buffer_reader_fc(&bb, n);
 		printf("rfc ");
 		putoff(p);
 		if (p) {
 			/* copy out through an exact-size block so that an over-long region is an ASan report */
-			unsigned char *tmp = (unsigned char *)malloc((size_t)n);
-			memcpy(tmp, p, (size_t)n);
+			int m = clip(n);
+			unsigned char *tmp = (unsigned char *)malloc((size_t)m);
+			memcpy(tmp, p, (size_t)(n < 0 ? 0 : n));
 			printf(" ");
-			puthex(tmp, n);
+			puthex(tmp, m);
+			free(tmp);
+			rd_ptr = (char *)p;
+			rd_n = n;
+		}
+	} else if (strcmp(op, "rpk") == 0) {
+		if (rd_ptr == NULL) {
+			printf("rpk skip");
+		} else {
+			int m = clip(rd_n);
+			unsigned char *tmp = (unsigned char *)malloc((size_t)m);
+			memcpy(tmp, rd_ptr, (size_t)(rd_n < 0 ? 0 : rd_n));
+			printf("rpk ");
+			putoff(rd_ptr);
+			printf(" ");
+			puthex(tmp, m);
 			free(tmp);
 		}
 	} else if (strcmp(op, "rmove") == 0) {
-		int k = arg ? atoi(arg) : 0;
-		bool ok = muggle_bytes_buffer_reader_move(&bb, k);
-		printf("rmove %d", ok ? 1 : 0);
+		int k = intarg(arg);
+		rd_ptr = NULL;
+		if (k < 0) {
+			printf("rmove skip");
+		} else {
+			bool ok = muggle_bytes_buffer_reader_move(&bb, k);
+			printf("rmove %d", ok ? 1 : 0);
+		}
 	} else if (strcmp(op, "clear") == 0) {
+		pend_ptr = NULL;
+		rd_ptr = NULL;
 		muggle_bytes_buffer_clear(&bb);
 		printf("clear");
 	} else {
